@@ -10,6 +10,7 @@ inductive Ty where
   | list (t : Ty)
   | lambda (a b : Ty)
   | map (k v : Ty)
+  | set (t : Ty)
   deriving DecidableEq, Repr, Inhabited
 
 mutual
@@ -31,6 +32,8 @@ mutual
     | list (t : Ty) (xs : List Val)
     /-- items are `pair k v` values, in key order -/
     | map (k v : Ty) (items : List Val)
+    /-- elements in ascending order -/
+    | set (t : Ty) (xs : List Val)
     | lam (a b : Ty) (body : Instr)
   inductive Instr where
     | seq (is : List Instr)
@@ -43,6 +46,7 @@ mutual
     | PAIRN (n : Nat) | UNPAIRN (n : Nat) | GETN (n : Nat) | UPDATEN (n : Nat)
     | UNIT | PAIR | UNPAIR | CAR | CDR | SOME | NONE (t : Ty) | LEFT (t : Ty) | RIGHT (t : Ty)
     | NIL (t : Ty) | CONS | SIZE | EMPTY_MAP (k v : Ty)
+    | EMPTY_SET (t : Ty) | MEM | GET | UPDATE | GET_AND_UPDATE
     | EDIV | LSL | LSR | SUB_MUTEZ
     | ADD | SUB | MUL | NEG | ABS | ISNAT | INT | COMPARE | EQ | NEQ | LT | GT | LE | GE
     | NOT | AND | OR | XOR
@@ -103,6 +107,7 @@ def typeOf : Val → Ty
   | .right tl v => .or tl (typeOf v)
   | .list t _ => .list t
   | .map k v _ => .map k v
+  | .set t _ => .set t
   | .lam a b _ => .lambda a b
 
 end Interp
